@@ -6,39 +6,19 @@
 From Verif Require Import Lib.GoInt Gen.GenApi Engine.HostCodec Proofs.HostCodecP.
 Open Scope Z_scope.
 
-(* host value -> slot -> host value, for every kind, every value and every mix of the two styles;
-   float32 only through the stack-based helpers (the reflective float32 path is the next two theorems) *)
-Theorem C08_roundtrip : forall st st' k v, go_wf k v -> (k = KF32 -> st = Api /\ st' = Api) ->
-  decode st k (encode st' k v) = v.
+(* host value -> slot -> host value, for every kind - float32 included, all bit patterns - every value and every mix of
+   the two styles (F07 repaired: reflection-based host functions no longer quiet signalling NaNs) *)
+Theorem C08_roundtrip : forall st st' k v, go_wf k v -> decode st k (encode st' k v) = v.
 Proof. exact roundtrip. Qed.
 Print Assumptions C08_roundtrip.
 
 (* guest slot -> host value -> guest slot (the echo direction), on well-formed slots *)
-Theorem C08_roundtrip_slot : forall st st' k s, slot_wf (type_of k) s -> (k = KF32 -> st = Api /\ st' = Api) ->
-  encode st' k (decode st k s) = s.
+Theorem C08_roundtrip_slot : forall st st' k s, slot_wf (type_of k) s -> encode st' k (decode st k s) = s.
 Proof. exact roundtrip_slot. Qed.
 Print Assumptions C08_roundtrip_slot.
 
-(* float32 through any style, both directions: every bit pattern that is not a signalling NaN *)
-Theorem C08_f32_roundtrip_partial : forall st st' v, in_u 32 v -> is_snan32 v = false ->
-  decode st KF32 (encode st' KF32 v) = v /\ encode st' KF32 (decode st KF32 v) = v.
-Proof. exact f32_roundtrip. Qed.
-Print Assumptions C08_f32_roundtrip_partial.
-
-(* F07 (open): reflection-based host functions see and return 0x7fe00000 for the signalling NaN 0x7fa00000 *)
-Theorem C08_snan_refuted :
-  go_wf KF32 2141192192 /\ is_snan32 2141192192 = true /\
-  decode Refl KF32 2141192192 = 2145386496 /\ encode Refl KF32 2141192192 = 2145386496 /\
-  decode Refl KF32 (encode Api KF32 2141192192) <> 2141192192 /\
-  view VF32 (encode Refl KF32 (decode Api KF32 2141192192)) <> 2141192192.
-Proof. exact snan_witness. Qed.
-Print Assumptions C08_snan_refuted.
-
-(* ... and so for every signalling NaN: the quiet bit is set, sign and payload are kept *)
-Theorem C08_snan_always_quieted : forall v, in_u 32 v -> is_snan32 v = true ->
-  decode Refl KF32 v = v + 4194304 /\ encode Refl KF32 v = v + 4194304.
-Proof. exact snan_always. Qed.
-Print Assumptions C08_snan_always_quieted.
+(* regression Example HostCodecP.C08_snan_quieted_before_fix: the pre-repair float64 round trip
+   mapped 0x7fa00000 to 0x7fe00000; the fixed witnesses of the harness replay it on the real code on every run *)
 
 (* results written by either style are zero-extended in the 64-bit slot: the invariant the interpreter relies on *)
 Theorem C08_slot_wf : forall st k v, go_wf k v -> slot_wf (type_of k) (encode st k v).
